@@ -340,6 +340,152 @@ def report_allocator_wiring():
     return install, remove
 
 
+
+# ---------------------------------------------------------------- overload switching, current allocators (C04 growth)
+
+FPTRS = ["operator_new_fptr", "operator_new_nothrow_fptr", "operator_new_debug_fptr", "operator_new_array_fptr",
+         "operator_new_array_nothrow_fptr", "operator_new_array_debug_fptr", "operator_delete_fptr", "operator_delete_array_fptr",
+         "malloc_fptr", "realloc_fptr", "free_fptr"]
+
+
+def leak_detection_branch(plug):
+    """the text that is compiled when CPPUTEST_USE_MEM_LEAK_DETECTION is on: `#if M ... #else ... #endif` keeps the first branch"""
+    out, stack = [], []
+    for line in plug.split("\n"):
+        s = line.strip()
+        m = re.match(r"#\s*if\s+(\w+)\s*$", s)
+        if m:
+            stack.append([True, m.group(1) == "CPPUTEST_USE_MEM_LEAK_DETECTION"]); out.append(""); continue
+        if re.match(r"#\s*(if|ifdef|ifndef)\b", s):
+            stack.append([True, False]); out.append(""); continue
+        if re.match(r"#\s*else\b", s) and stack:
+            if stack[-1][1]:
+                stack[-1][0] = False
+            out.append(""); continue
+        if re.match(r"#\s*endif\b", s) and stack:
+            stack.pop(); out.append(""); continue
+        out.append(line if all(k for k, _ in stack) else "")
+    return "\n".join(out)
+
+
+def static_initialisers(plug):
+    """`static <type> (*X_fptr)(...) ... = fn;` for the 11 function pointers and their saved_ copies"""
+    text = leak_detection_branch(plug)
+    init = {}
+    for m in re.finditer(r"static\s+void\s*\*?\s*\(\s*\*\s*(\w+_fptr)\s*\)\s*\([^)]*\)[^=;]*=\s*(\w+)\s*;", text):
+        if m.group(1) in init:
+            raise TranslateError("function pointer %s initialised twice" % m.group(1))
+        init[m.group(1)] = m.group(2)
+    want = FPTRS + ["saved_" + x for x in FPTRS]
+    if sorted(init) != sorted(want):
+        raise TranslateError("static function pointers are %r (expected the 11 pointers and their saved_ copies)" % sorted(init))
+    m = re.search(r"static\s+int\s+save_counter\s*=\s*(-?\d+)\s*;", text)
+    if not m:
+        raise TranslateError("static int save_counter = <n>; not found")
+    return [(k, init[k]) for k in want], int(m.group(1))
+
+
+def save_restore(plug):
+    """saveAndDisableNewDeleteOverloads / restoreNewDeleteOverloads: counter guard, the assignment list, the trailing call"""
+    out = {}
+    for fn in ("saveAndDisableNewDeleteOverloads", "restoreNewDeleteOverloads"):
+        body = function_body(plug, r"void\s+MemoryLeakWarningPlugin::%s\s*\(\s*\)\s*\{" % fn)
+        body = "\n".join(l for l in body.split("\n") if not l.strip().startswith("#"))
+        stmts = [norm(x) for x in body.split(";") if norm(x)]
+        if not stmts:
+            raise TranslateError(fn + " is empty")
+        g = re.fullmatch(r"if\((\+\+|--)save_counter>(\d+)\)return", stmts[0])
+        if not g:
+            raise TranslateError("%s: counter guard not understood: %s" % (fn, stmts[0]))
+        pairs, tail = [], []
+        for st in stmts[1:]:
+            mm = re.fullmatch(r"(\w+_fptr)=(\w+_fptr)", st)
+            if mm and not tail:
+                pairs.append((mm.group(1), mm.group(2)))
+            elif re.fullmatch(r"(\w+)\(\)", st):
+                tail.append(st[:-2])
+            else:
+                raise TranslateError("%s: statement not understood: %s" % (fn, st))
+        out[fn] = (1 if g.group(1) == "++" else -1, int(g.group(2)), pairs, tail)
+    return out
+
+
+def overloaded_test(plug):
+    body = function_body(plug, r"bool\s+MemoryLeakWarningPlugin::areNewDeleteOverloaded\s*\(\s*\)\s*\{")
+    body = norm(leak_detection_branch("#if CPPUTEST_USE_MEM_LEAK_DETECTION\n" + body.split("#if CPPUTEST_USE_MEM_LEAK_DETECTION")[-1]))
+    m = re.fullmatch(r"return(.*);", body)
+    if not m:
+        raise TranslateError("areNewDeleteOverloaded changed shape: " + body)
+    ptrs, fns = set(), []
+    for d in m.group(1).split("||"):
+        mm = re.fullmatch(r"(\w+_fptr)==(\w+)", d)
+        if not mm:
+            raise TranslateError("areNewDeleteOverloaded: disjunct not understood: " + d)
+        ptrs.add(mm.group(1)); fns.append(mm.group(2))
+    if len(ptrs) != 1:
+        raise TranslateError("areNewDeleteOverloaded looks at several pointers: %r" % sorted(ptrs))
+    return ptrs.pop(), fns
+
+
+def normal_wrappers(plug, names):
+    """normal_* functions: which platform call each one is (malloc / realloc / free), straight through"""
+    out = []
+    for n in names:
+        body = function_body(plug, r"static\s+void\s*\*?\s*%s\s*\([^)]*\)[^{;]*\{" % n)
+        stmts = [norm(x) for x in body.split(";") if norm(x)]
+        stmts = [x for x in stmts if x not in ("UT_THROW_BAD_ALLOC_WHEN_NULL(memory)", "returnmemory")]
+        if len(stmts) != 1:
+            raise TranslateError("%s: statements not understood: %r" % (n, stmts))
+        mm = re.fullmatch(r"(?:void\*memory=|return)?PlatformSpecific(Malloc|Realloc|Free)\((size|memory,size|mem|buffer)\)", stmts[0])
+        if not mm or {"Malloc": "size", "Realloc": "memory,size"}.get(mm.group(1), mm.group(2)) != mm.group(2):
+            raise TranslateError("%s: statement not understood: %s" % (n, stmts[0]))
+        out.append((n, mm.group(1).lower()))
+    return out
+
+
+def current_allocator_wiring(tma):
+    """setCurrentXAllocator / getCurrentXAllocator / setCurrentXAllocatorToDefault / defaultXAllocator and the stash"""
+    fams, defaults = [], []
+    for fam in ("New", "NewArray", "Malloc"):
+        var = "current%sAllocator" % fam
+        b = norm(function_body(tma, r"void\s+setCurrent%sAllocator\s*\(\s*TestMemoryAllocator\s*\*\s*allocator\s*\)\s*\{" % fam))
+        if b != var + "=allocator;":
+            raise TranslateError("setCurrent%sAllocator changed shape: %s" % (fam, b))
+        b = norm(function_body(tma, r"TestMemoryAllocator\s*\*\s*getCurrent%sAllocator\s*\(\s*\)\s*\{" % fam))
+        if b != "if(%s==NULLPTR)setCurrent%sAllocatorToDefault();return%s;" % (var, fam, var):
+            raise TranslateError("getCurrent%sAllocator changed shape: %s" % (fam, b))
+        b = norm(function_body(tma, r"void\s+setCurrent%sAllocatorToDefault\s*\(\s*\)\s*\{" % fam))
+        m = re.fullmatch(r"(\w+)=(default\w+Allocator)\(\);", b)
+        if not m:
+            raise TranslateError("setCurrent%sAllocatorToDefault changed shape: %s" % (fam, b))
+        raw = function_body(tma, r"TestMemoryAllocator\s*\*\s*%s\s*\(\s*\)\s*\{" % m.group(2))
+        mm = re.fullmatch(r'\s*static\s+TestMemoryAllocator\s+allocator\s*\(\s*"([^"]*)"\s*,\s*"([^"]*)"\s*,\s*"([^"]*)"\s*\)\s*;\s*return\s*&\s*allocator\s*;\s*', raw)
+        if not mm:
+            raise TranslateError("%s changed shape: %s" % (m.group(2), norm(raw)))
+        fams.append(("setCurrent%sAllocatorToDefault" % fam, "set" + m.group(1)[0].upper() + m.group(1)[1:], m.group(2)))
+        defaults.append((m.group(2),) + mm.groups())
+    b = function_body(tma, r"void\s+GlobalMemoryAllocatorStash::save\s*\(\s*\)\s*\{")
+    save = []
+    for st in [norm(x) for x in b.split(";") if norm(x)]:
+        m = re.fullmatch(r"(original\w+Allocator)=(getCurrent\w+Allocator)\(\)", st)
+        if not m:
+            raise TranslateError("GlobalMemoryAllocatorStash::save: statement not understood: " + st)
+        save.append(m.groups())
+    b = function_body(tma, r"void\s+GlobalMemoryAllocatorStash::restore\s*\(\s*\)\s*\{")
+    restore = []
+    for st in [norm(x) for x in b.split(";") if norm(x)]:
+        m = re.fullmatch(r"if\((original\w+Allocator)\)(setCurrent\w+Allocator)\((original\w+Allocator)\)", st)
+        if not m or m.group(1) != m.group(3):
+            raise TranslateError("GlobalMemoryAllocatorStash::restore: statement not understood: " + st)
+        restore.append((m.group(1), m.group(2)))
+    if len(save) != 3 or len(restore) != 3:
+        raise TranslateError("GlobalMemoryAllocatorStash: %d save / %d restore statements" % (len(save), len(restore)))
+    return fams, defaults, save, restore
+
+
+def lean_pairs(name, doc, pairs):
+    return "/-- %s -/\ndef %s : List (String × String) := [\n" % (doc, name) + ",\n".join('  ("%s", "%s")' % x for x in pairs) + "\n]\n\n"
+
 def lean_bool(b):
     return "true" if b else "false"
 
@@ -535,6 +681,39 @@ def extract():
     t += "/-- `MemoryReporterPlugin::removeGlobalMemoryReportAllocators`: `if (G() == &A) S(B.getRealAllocator());` as (G, A, S, B) -/\n"
     t += "def reportRemove : List (String × String × String × String) := [\n"
     t += ",\n".join('  ("%s", "%s", "%s", "%s")' % x for x in remove) + "\n]\n\nend Gen.LeakDetector\n"
+    # ---- overload switching and current allocators (C04 growth)
+    off_tab = fptr_table(plug, "turnOffNewDeleteOverloads")
+    for tabname, tab in (("turnOffNewDeleteOverloads", off_tab), ("turnOnDefaultNotThreadSafeNewDeleteOverloads", plain_tab), ("turnOnThreadSafeNewDeleteOverloads", ts_tab)):
+        if [k for k, _ in tab] != FPTRS:
+            raise TranslateError("%s does not assign exactly the 11 function pointers in the known order: %r" % (tabname, [k for k, _ in tab]))
+    inits, counter0 = static_initialisers(plug)
+    sr = save_restore(plug)
+    ov_ptr, ov_fns = overloaded_test(plug)
+    normals = normal_wrappers(plug, [fn for _, fn in off_tab])
+    fams, defaults, st_save, st_restore = current_allocator_wiring(tma)
+    t = t.replace("\n\nend Gen.LeakDetector\n", "\n\n")
+    t += lean_pairs("offTable", "`turnOffNewDeleteOverloads`: function pointer := function", off_tab)
+    t += lean_pairs("staticInit", "initial values of the 11 function pointers and of their `saved_` copies (static initialisers)", inits)
+    t += "/-- initial value of `save_counter` -/\ndef saveCounterInit : Int := %d\n\n" % counter0
+    for fn, nm in (("saveAndDisableNewDeleteOverloads", "save"), ("restoreNewDeleteOverloads", "restore")):
+        step, thr, pairs, tail = sr[fn]
+        t += "/-- `%s`: `if (%ssave_counter > %d) return;` -/\ndef %sCounterStep : Int := %d\ndef %sReturnIfAbove : Int := %d\n" % (
+            fn, "++" if step > 0 else "--", thr, nm, step, nm, thr)
+        t += lean_pairs(nm + "Assignments", "`%s`: the assignments `dst = src`, in order" % fn, pairs)
+        t += "/-- `%s`: the calls after the assignments -/\ndef %sThenCalls : List String := [%s]\n\n" % (fn, nm, ", ".join('"%s"' % x for x in tail))
+    t += "/-- `areNewDeleteOverloaded`: `P == f1 || P == f2 ...` -/\ndef overloadedPtr : String := \"%s\"\ndef overloadedFns : List String := [%s]\n\n" % (
+        ov_ptr, ", ".join('"%s"' % x for x in ov_fns))
+    t += lean_pairs("normalWrappers", "the functions behind the pointers when the overloads are off: the platform call each one makes", normals)
+    t += lean_pairs("cEntryPoints", "the C entry points of MemoryLeakWarningPlugin.cpp and the function pointer each forwards to", [
+        ("cpputest_malloc_location_with_leak_detection", "malloc_fptr"), ("cpputest_realloc_location_with_leak_detection", "realloc_fptr"),
+        ("cpputest_free_location_with_leak_detection", "free_fptr")])
+    t += "/-- `setCurrent…AllocatorToDefault`: (function, setter it amounts to, default-allocator function) -/\n"
+    t += "def defaultSetters : List (String × String × String) := [\n" + ",\n".join('  ("%s", "%s", "%s")' % x for x in fams) + "\n]\n\n"
+    t += "/-- `default…Allocator()`: (function, name, alloc_name, free_name) of its static allocator -/\n"
+    t += "def defaultAllocators : List (String × String × String × String) := [\n" + ",\n".join('  ("%s", "%s", "%s", "%s")' % x for x in defaults) + "\n]\n\n"
+    t += lean_pairs("stashSave", "`GlobalMemoryAllocatorStash::save`: `field = getter()`", st_save)
+    t += lean_pairs("stashRestore", "`GlobalMemoryAllocatorStash::restore`: `if (field) setter(field)`", st_restore)
+    t += "end Gen.LeakDetector\n"
     return t
 
 
